@@ -338,6 +338,7 @@ type analyzer struct {
 	callModel  func(c *ssa.CallCommon, args []aval) (aval, bool) // optional rule-specific summaries
 	noInline   map[*ssa.Function]bool
 	stack      []*ssa.Function
+	allowRecursion bool // bounded by maxDepth (structural recursion over a finite chain)
 }
 
 func newAnalyzer() *analyzer {
@@ -1106,7 +1107,7 @@ func (an *analyzer) call(x *ssa.Call, get func(ssa.Value) aval, depth int, res *
 			recursive = true
 		}
 	}
-	if !recursive && !an.noInline[sc] && (inRepoFn(sc) || an.inlineAll) && depth < an.maxDepth && len(sc.Blocks) > 0 && len(sc.Blocks) <= an.maxBlocks {
+	if (!recursive || an.allowRecursion) && !an.noInline[sc] && (inRepoFn(sc) || an.inlineAll) && depth < an.maxDepth && len(sc.Blocks) > 0 && len(sc.Blocks) <= an.maxBlocks {
 		an.stack = append(an.stack, sc)
 		r := an.run(sc, args, free, depth+1)
 		an.stack = an.stack[:len(an.stack)-1]
@@ -1295,6 +1296,25 @@ func evalBin(op token.Token, a, b aval) aval {
 		if r, ok := strLen(b, a); ok {
 			return r
 		}
+	}
+	if (op == token.EQL || op == token.NEQ) && a.k == kStruct && b.k == kStruct && len(a.elems) == len(b.elems) {
+		allEq, decided := true, true
+		for i := range a.elems {
+			r := evalBin(token.EQL, a.elems[i], b.elems[i])
+			if r.k != kConst {
+				decided = false
+				continue
+			}
+			if !constant.BoolVal(r.c) {
+				// one differing field decides inequality
+				return cBool(op == token.NEQ)
+			}
+			_ = allEq
+		}
+		if decided {
+			return cBool(op == token.EQL)
+		}
+		return top
 	}
 	if a.k == kConst && b.k == kConst {
 		ka, kb := a.c.Kind(), b.c.Kind()
